@@ -10,7 +10,7 @@ fn key(s: &str) -> String {
 
 /// layout: constructors, element access, row/transpose/diagonal/trace, diagonal constructors
 fn layout<T: Tier, M: MatN<T, N>, const N: usize>(rep: &mut Report) {
-    let k = rep.pick(1, 2);
+    let k = rep.pick(2, 3);
     let letters = alphabet::A1;
     let dev = DevSpace::new(N * N, letters.len(), k);
     let nb = 3;
@@ -75,7 +75,7 @@ fn layout<T: Tier, M: MatN<T, N>, const N: usize>(rep: &mut Report) {
 /// embeddings of smaller matrices and the homogeneous scale/translation constructors,
 /// judged by their action on points and vectors through the three matrix Transform impls
 fn homogeneous<T: Tier>(rep: &mut Report) {
-    let k = rep.pick(1, 2);
+    let k = rep.pick(2, 3);
     let letters = alphabet::A1;
     // slots: 9 matrix entries (3x3 block), 3 scale factors, 3 translation, 3 probe point, 3 probe vector
     let slots = 9 + 3 + 3 + 3 + 3;
@@ -206,7 +206,7 @@ fn bilinear<T: Tier, M: MatN<T, N>, const N: usize>(rep: &mut Report) {
 
 /// generic: dense, pairwise-distinct operands with bounded deviations; all ring operations
 fn generic<T: Tier, M: MatN<T, N>, const N: usize>(rep: &mut Report) {
-    let k = rep.pick(1, 2);
+    let k = rep.pick(2, 3);
     let letters: &[R] = if rep.quick() { &alphabet::A1 } else { &alphabet::A2 };
     let slots = 2 * N * N + N + 1; // A, B, v, s
     let dev = DevSpace::new(slots, letters.len(), k);
